@@ -396,7 +396,17 @@ def _check_hint(ctx, k, u, f, L):
             idx_ok = lin in ({Hk: 1}, {Hk: 1, '': -1})
             size = '%s.size()' % C
             lo = has_lower_bound(fs, Hk, 1, unsigned)
-            hi = any(op == '<' and x1 == Hk and x2 == size for (op, x1, x2) in fs)
+            size_keys = set([size])
+            for d_ in walk(f):
+                if d_.get('kind') == 'VarDecl' and kids(d_) and d_['id'] in F.never_written and int_type(dtype(d_) or ''):
+                    r_ = pn.norm(kids(d_)[-1])       # (a local holding end - begin over the whole table)
+                    if r_ is not None and r_[0] == 'int' and r_[2] == {size: 1}:
+                        size_keys |= set(['%s#%s' % (d_.get('name'), d_['id']), keys.key(kids(d_)[-1]),
+                                          keys.subst.get(d_['id'], '')])
+
+            def _is_size(k_):
+                return k_ in size_keys
+            hi = any(op == '<' and x1 == Hk and _is_size(x2) for (op, x1, x2) in fs)
             container = container or C
             ctx.check(idx_ok and lo and hi, 'C14-hint', '(i) %s[%s] in %s' % (C, _lin(lin), fn), a,
                       'the table is indexed by the remembered value without 0 < h and h < size() holding on '
